@@ -269,11 +269,28 @@ func c05Splitter(sh *evidence.Shard) {
 					p.Sample(c)
 				}
 				if clause != "" {
-					sh.Violate(p.Name, fmt.Sprintf("splitter/%s/payload=%d,addr_len=%d,limit=%d", c05Generic(clause), pl, al, lim), clause, c)
+					c05Report(sh, p, c05Generic(clause), fmt.Sprintf("splitter/%s/payload=%d,addr_len=%d,limit=%d", c05Generic(clause), pl, al, lim), clause, c)
 				}
 			}
 		}
 	}
+}
+
+// c05Report records a violation, at most c05MaxPerKind per (part, clause kind) and shard: cases are
+// enumerated simplest first, so the first ones are the minimal cases; the enumeration itself goes on
+// (other clause kinds are still reported, every violating case is counted).
+const c05MaxPerKind = 2
+
+var c05Reported = map[string]int{}
+
+func c05Report(sh *evidence.Shard, p *evidence.Part, kind, signature, detail string, replay any) {
+	k := p.Name + "/" + kind
+	c05Reported[k]++
+	p.Count("violating_cases", 1)
+	if c05Reported[k] > c05MaxPerKind {
+		return
+	}
+	sh.Violate(p.Name, signature, detail, replay)
 }
 
 // c05Generic strips the numbers out of a clause so that the signature = clause kind + minimal case.
@@ -777,7 +794,7 @@ func c05ReassemblerSequences(sh *evidence.Shard) {
 					}
 				}
 				names := c05Names(cfg, h)
-				sh.Violate(p.Name, fmt.Sprintf("reassembler-sequences/%s/%s/history=%s", cfg.Name, c05Generic(clause), strings.Join(names, ",")),
+				c05Report(sh, p, cfg.Name+"/"+c05Generic(clause), fmt.Sprintf("reassembler-sequences/%s/%s/history=%s", cfg.Name, c05Generic(clause), strings.Join(names, ",")),
 					clause, c05HistCase{Cfg: cfg.Name, History: h, Names: names})
 			}
 			return true
